@@ -74,7 +74,7 @@ func zzSameUsage(got cdrType.MultipleUnitUsage, want models.ChfConvergedCharging
 // once, in order, in that session's record and nowhere else; the record keeps
 // the identification given at creation; cause for closing is normal on release.
 //
-//gosx:property=C02 tier=quick shards=4 unwind=40 timeout=30000 p.entries=1 p.entries.thorough=2 p.containers=1 p.containers.thorough=2
+//gosx:property=C02 tier=quick shards=4 unwind=40 timeout=30000 p.entries=1 p.entries.thorough=2 p.containers=2
 func ZZ_C02_UsageRecorded() {
 	p := zzSetup()
 	rg := vx.Int32("rg")
